@@ -146,3 +146,45 @@ pub fn run(tr: &mut Tr, seed: u64, paths_file: &str, ops: &str, full: bool, shar
     }
     (tests, distinct.len() as u64)
 }
+
+
+/// Write-side faults: fixed-slice backends of 0..=3 words receive random histories until the
+/// backend is full.  The call that does not fit must fail, the words that fit must have been
+/// delivered unaltered, and nothing else.
+pub fn wfull(tr: &mut Tr, seed: u64, rounds: usize) -> (u64, u64) {
+    use crate::drivers::hist::{rand_items, Item};
+    use crate::dynio::Out;
+    let mut rng = SmallRng::seed_from_u64(seed ^ 0x5746);
+    let mut tests = 0u64;
+    let mut distinct: HashSet<(usize, usize, String)> = HashSet::new();
+    for r in 0..rounds {
+        for le in [false, true] {
+            for w in WRITER_WORDS {
+                let cap = rng.random_range(0..=3usize) + if r % 4 == 0 { 4 } else { 0 };
+                let cfg = WCfg { le, w, backend: "slice", wrap: "none" };
+                tr.reset();
+                let mut tw = TW::new(tr, &cfg, cap);
+                let items = rand_items(&mut rng, 40, true, true);
+                for it in &items {
+                    if tw.dead {
+                        break;
+                    }
+                    tests += 1;
+                    let res = match it {
+                        Item::Bits { v, n } => tw.write_bits(tr, clean(*v, *n), *n).is_ok(),
+                        Item::Unary(x) => tw.write_unary(tr, *x % (3 * w as u64 + 2)).is_ok(),
+                        Item::Code { c, opt, v } => tw.write_code(tr, c, *opt, *v).is_ok(),
+                        Item::Bytes(bs) => matches!(tw.write_bytes(tr, bs), Some(Out::Ok(_))),
+                        Item::Flush => tw.flush(tr).is_ok(),
+                    };
+                    distinct.insert((w, cap, format!("{:?}{}", std::mem::discriminant(it), res)));
+                }
+                // a writer that survived is closed by a flush (never dropped: drop unwraps the flush result)
+                if !tw.dead {
+                    tw.flush(tr);
+                }
+            }
+        }
+    }
+    (tests, distinct.len() as u64)
+}
